@@ -16,7 +16,7 @@ func TestMain(m *testing.M) { pbt.RunMain(m) }
 var profile = txm.Profile{
 	Name:       "c03",
 	OpKinds:    []string{"begin", "get", "get", "get", "get", "set", "set", "set", "del", "iter", "commit", "commit", "commit", "commit", "discard", "maint"},
-	MaintKinds: []string{"rotate", "rotate", "compact", "once", "rewrite"},
+	MaintKinds: []string{"rotate", "rotate", "drain", "drain", "once", "rewrite"},
 	ValueSizes: []int{0, 1, 8, 33, 100, 1000},
 	MaxOps:     60,
 	MaxKeys:    5,
